@@ -89,6 +89,17 @@ func (l *Lexer) atEOF() bool {
 	return l.pos >= len(l.input)
 }
 
+// atTaskKeyword returns whether or not the lexer is currently at the 'task' keyword, as opposed
+// to an identifier that merely starts with it e.g. 'tasks' or 'task_dir'.
+func (l *Lexer) atTaskKeyword() bool {
+	rest, found := strings.CutPrefix(l.rest(), token.TASK.String())
+	if !found {
+		return false
+	}
+	r, _ := utf8.DecodeRuneInString(rest)
+	return !isValidIdent(r)
+}
+
 // skipWhitespace consumes any utf-8 whitespace until something meaningful is hit.
 func (l *Lexer) skipWhitespace() {
 	for {
@@ -223,7 +234,7 @@ func lexStart(l *Lexer) lexFn {
 	switch {
 	case strings.HasPrefix(l.rest(), token.HASH.String()):
 		return lexHash
-	case strings.HasPrefix(l.rest(), token.TASK.String()):
+	case l.atTaskKeyword():
 		return lexTaskKeyword
 	case isValidIdent(l.peek()):
 		return lexIdent
